@@ -455,6 +455,7 @@ def main():
         "distribution": stats, "samples": summ[:1]})
     v.assumptions = ["theorems assume each module's weight is as long as its channel (Fuzzy, ART2-A); other modules: known finding",
                      "channel-permutation invariance is checked on the implementation only (exact on dyadic data)"]
+    v.cov["added_after_wave_7"] = 'fresh_module_replay: whole fused fit / two partial fits replayed with freshly constructed modules given only the channel weights (Gaussian, Bayesian, Hypersphere, Ellipsoid, ART2-A, QuadraticNeuron, ART1 channel + Fuzzy channel): labels, weights, public activation'
     sys.exit(v.finish())
 
 
